@@ -193,6 +193,11 @@ def _is_len_of(t, what) -> bool:
     return _is_call_to(t, "len") and len(t[2]) == 1 and strip_sites(t[2][0]) == strip_sites(what)
 
 
+def _add_operands(e):
+    """operands of a (left-nested) chain of `+`"""
+    return _add_operands(e.left) + _add_operands(e.right) if isinstance(e, ast.BinOp) and isinstance(e.op, ast.Add) else [e]
+
+
 def _proj(t):
     """``<call>[k]`` -> (call term, k) else None."""
     if t[0] == "sub" and t[1][0] == "call" and _ci(t[2]) is not None:
@@ -1260,7 +1265,57 @@ def _g2(ctx: Context) -> None:
             continue
         tests.append((n, op, l[2][0]))
     if not tests:
-        ck.unknown(R, "_read_pdu: no test compares len(<accumulated body>) with the expected length returned by decode_pdu - loop condition not recognised", rf.loc())
+        # ---- the same loop driven by a countdown: `missing = expected - len(first body)`; `while missing > 0:` .. `missing -= len(X)`
+        # with the body collected by `chunks.append(Y)` / `data += Y`.  The countdown tracks the body only if what is subtracted
+        # is the length of exactly what is appended: X is Y (the decoded continuation body - not the raw fragment with its header)
+        done_cd = False
+        for n in cfg.nodes:
+            if n.kind != "test":
+                continue
+            e0 = n.exprs[0]
+            if not (isinstance(e0, ast.Compare) and len(e0.ops) == 1 and isinstance(e0.left, ast.Name) and isinstance(e0.ops[0], (ast.Gt, ast.NotEq))
+                    and ctx.const(rf, e0.comparators[0], None) == 0):
+                continue
+            m = e0.left.id
+            subs, init_ok = [], False
+            for d in cfg.nodes:
+                a = d.ast
+                if d.kind != "stmt" or a is None:
+                    continue
+                if isinstance(a, ast.AugAssign) and isinstance(a.target, ast.Name) and a.target.id == m and isinstance(a.op, ast.Sub):
+                    subs.append(d)
+                elif type(a) is ast.Assign and len(a.targets) == 1 and isinstance(a.targets[0], ast.Name) and a.targets[0].id == m:
+                    t0 = strip_sites(T.of(cfg, d, a.value))
+                    init_ok = t0[0] == "binop" and t0[1] == "Sub" and first_proj(T.of(cfg, d, a.value.left) if isinstance(a.value, ast.BinOp) else ("unknown", ""), i_len) \
+                        and isinstance(a.value, ast.BinOp) and _is_call_to(T.of(cfg, d, a.value.right), "len") and first_proj(T.of(cfg, d, a.value.right)[2][0], i_body)
+            if not subs or not init_ok:
+                continue
+            # what is collected in the loop
+            adds = []
+            for d in cfg.nodes:
+                a = d.ast
+                if d.kind != "stmt" or a is None or not any(fr[0] == "loop" for fr in d.frames):
+                    continue
+                if isinstance(a, ast.AugAssign) and isinstance(a.op, ast.Add) and not (isinstance(a.target, ast.Name) and a.target.id == m):
+                    adds.append((d, a.value))
+                for c_ in ctx.calls(d):
+                    if isinstance(c_.func, ast.Attribute) and c_.func.attr in ("append", "extend") and len(c_.args) == 1 and isinstance(d.ast, ast.Expr):
+                        adds.append((d, c_.args[0]))
+            adds = [(d, v) for d, v in adds if is_cont(T.of(cfg, d, v))]
+            if len(subs) != 1 or len(adds) != 1:
+                continue
+            sd = subs[0]
+            st = T.of(cfg, sd, sd.ast.value)
+            same = _is_call_to(st, "len") and len(st[2]) == 1 and strip_sites(st[2][0]) == strip_sites(T.of(cfg, adds[0][0], adds[0][1]))
+            if same or (_is_call_to(st, "len") and len(st[2]) == 1):
+                ck.check(R, same, "_read_pdu: the countdown of missing bytes is reduced by the length of exactly what is added to the body",
+                         f"{ctx.fkey(rf)}:countdown-counts-other-bytes",
+                         f"_read_pdu counts down the missing bytes by `{sd.text()}` = len({show(st[2][0], 60)}) but adds {show(T.of(cfg, adds[0][0], adds[0][1]), 60)} to the body: "
+                         "the raw fragment includes its two header bytes, so a response in three or more fragments ends one fragment early (truncated body, a fragment left unread; "
+                         "on an encrypted session the counters fall out of step)", ctx.loc(rf, sd))
+                done_cd = True
+        if not done_cd:
+            ck.unknown(R, "_read_pdu: no test compares len(<accumulated body>) with the expected length returned by decode_pdu - loop condition not recognised", rf.loc())
         return
     cont_edges, stop_edges = [], []
     for n, op, a in tests:
@@ -1582,6 +1637,15 @@ def _t1_batch_decoder(ctx: Context, item):
         sn = cfg.nodes[si]
         if sd.kind == "aug" and isinstance(sd.extra, ast.Add):
             st = T.of(cfg, sn, sd.value)
+        elif sd.kind == "assign" and not sd.path and isinstance(sd.value, ast.BinOp) and isinstance(sd.value.op, ast.Add) and (lambda ops_: any(
+                isinstance(o_, ast.Name) and o_.id == e0.id for o_ in ops_) and sum(1 for o_ in ops_ for y_ in ast.walk(o_) if isinstance(y_, ast.Name) and y_.id == e0.id) == 1)(_add_operands(sd.value)):
+            # `v = v + a + b` (the variable once, as an operand of the sum): the step is a + b
+            rest_ = [o_ for o_ in _add_operands(sd.value) if not (isinstance(o_, ast.Name) and o_.id == e0.id)]
+            st = T.of(cfg, sn, rest_[0])
+            for o_ in rest_[1:]:
+                from ..engine.terms import _binop as _bo
+
+                st = _bo("Add", st, T.of(cfg, sn, o_))
         else:
             ck.unknown(R, f"decode_all_pdus: {what} is stepped by `{sn.text()}`, not by `+=`", ctx.loc(f, sn))
             return None
